@@ -16,6 +16,7 @@ import (
 
 	ipfscluster "github.com/ipfs/ipfs-cluster"
 	"github.com/ipfs/ipfs-cluster/api"
+	"github.com/ipfs/ipfs-cluster/consensus/crdt"
 	"github.com/ipfs/ipfs-cluster/informer/disk"
 	"github.com/ipfs/ipfs-cluster/informer/numpin"
 	"github.com/ipfs/ipfs-cluster/monitor/metrics"
@@ -578,6 +579,105 @@ func init() {
 			After: func(runErr error) (string, []e1.Finding) {
 				quiesce()
 				return fmt.Sprintf("shutdown-returned=%v", shut), nil
+			},
+			Teardown: func() { p.Stop(); hosts[0].Close() },
+		}
+	})
+}
+
+// ---------- scenario 7: cluster facade Pin / Unpin / StatusAll / Shutdown ----------
+
+func facadeScenario(withShutdown bool) e1.Scenario {
+	return func(t *testing.T) *e1.Exec {
+		ctx := context.Background()
+		_, hosts := clus.NewMocknet(ctx, 0, 1)
+		sh := clus.NewShared([]peer.ID{hosts[0].ID()})
+		cons := clus.NewMemConsensus(hosts[0].ID(), sh)
+		tcfg := &stateless.Config{}
+		tcfg.Default()
+		tcfg.ConcurrentPins = 1
+		tr := stateless.New(tcfg, hosts[0].ID(), "p0", cons.State)
+		p, err := clus.NewPeer(ctx, &clus.PeerParts{Host: hosts[0], Consensus: cons, Shared: sh, Tracker: tr})
+		if err != nil {
+			t.Fatal(err)
+		}
+		<-p.C.Ready()
+		quiesce()
+		c := clus.Cid("a")
+		var torn []string
+		threads := map[string]func(){
+			"T0": func() { p.C.Pin(ctx, c, api.PinOptions{Name: "x"}) },
+			"T1": func() { p.C.Unpin(ctx, c) },
+			"T2": func() {
+				gpis, _ := p.C.StatusAll(ctx, api.TrackerStatusUndefined)
+				seen := map[cid.Cid]int{}
+				for _, g := range gpis {
+					seen[g.Cid]++
+					if len(g.PeerMap) > 1 {
+						torn = append(torn, "more than one peer entry on a single-peer cluster")
+					}
+				}
+				for k, n := range seen {
+					if n > 1 {
+						torn = append(torn, fmt.Sprintf("cid %s listed %d times", k, n))
+					}
+				}
+			},
+		}
+		if withShutdown {
+			threads["T2"] = func() { p.C.Shutdown(ctx) }
+		}
+		return &e1.Exec{
+			Threads: threads,
+			After: func(runErr error) (string, []e1.Finding) {
+				quiesce()
+				var fs []e1.Finding
+				for _, x := range torn {
+					fs = append(fs, e1.Finding{Key: "statusall-torn", Detail: x})
+				}
+				return fmt.Sprintf("pins=%d", len(sh.Pins())), fs
+			},
+			Teardown: func() { p.Stop(); hosts[0].Close() },
+		}
+	}
+}
+
+func init() {
+	registerND("cluster-pin-unpin-statusall", 1, 2, facadeScenario(false))
+	registerND("cluster-pin-unpin-shutdown", 1, 2, facadeScenario(true))
+}
+
+// ---------- scenario 8: crdt batching queue: LogPin / LogPin / worker / Shutdown ----------
+
+func init() {
+	registerND("crdt-batch-logpin-logpin-shutdown", 1, 2, func(t *testing.T) *e1.Exec {
+		ctx := context.Background()
+		_, hosts := clus.NewMocknetUnconnected(ctx, 0, 1)
+		p, err := clus.NewCRDTPeer(ctx, hosts[0], clus.NewFaultStore(), false, func(c *crdt.Config) {
+			c.Batching.MaxBatchSize = 2
+			c.Batching.MaxBatchAge = time.Hour
+			c.Batching.MaxQueueSize = 1
+		})
+		if err != nil {
+			t.Fatal(err)
+		}
+		<-p.Cons.Ready(ctx)
+		quiesce()
+		mk := func(s string) *api.Pin {
+			x := api.PinCid(clus.Cid(s))
+			x.ReplicationFactorMin, x.ReplicationFactorMax = -1, -1
+			return x
+		}
+		var e0, e1x error
+		return &e1.Exec{
+			Threads: map[string]func(){
+				"T0": func() { e0 = p.Cons.LogPin(ctx, mk("a")) },
+				"T1": func() { e1x = p.Cons.LogPin(ctx, mk("b")) },
+				"T2": func() { p.Cons.Shutdown(ctx) },
+			},
+			After: func(runErr error) (string, []e1.Finding) {
+				quiesce()
+				return fmt.Sprintf("a-accepted=%v b-accepted=%v", e0 == nil, e1x == nil), nil
 			},
 			Teardown: func() { p.Stop(); hosts[0].Close() },
 		}
